@@ -31,6 +31,14 @@ def udf_classes():
 
 def gen_group(r, agg):
   n = r.choice([0, 1, 2, 3, 3, 4, 4, 5, 6, 7, 9, 12])
+  if agg in ('ArgMin', 'ArgMax') and r.random() < 0.04:
+    # now and then a big group: a bounded buffer behaves differently once it has overflowed often
+    n = r.choice([70, 100, 150])
+    vals = r.sample(range(-500, 1000), n)
+    if r.random() < 0.3:
+      vals = [v + 0.5 for v in vals]
+    rows = [[r.choice([0, 1, 'x', 'p%d' % i, i]), v] for i, v in enumerate(vals)]
+    return {'agg': agg, 'rows': rows, 'limit': r.choice([None, 1, 2, 3, 5, 8, n - 1, n + 1])}
   if agg in ('ArgMin', 'ArgMax'):
     kind = r.choice(['int', 'int', 'float', 'str', 'mixed'])
     if kind == 'mixed':
